@@ -513,7 +513,10 @@ func loadScenarios(verif string) map[string]Scenario {
 }
 
 func (w *Workspace) scenarioReplay(o *Obligation, scratch string) *ReplayOutcome {
-	sc, ok := loadScenarios(w.verif)[strings.TrimSuffix(o.Name, "!outside_known")]
+	if strings.HasSuffix(o.Name, "!outside_known") {
+		return nil // the scenario of the base obligation is the known case itself
+	}
+	sc, ok := loadScenarios(w.verif)[o.Name]
 	if !ok {
 		return nil
 	}
